@@ -5,6 +5,14 @@ package snapshot
 // Contracts checked by /verif (lsvc). This file contains comments only and is
 // compiled only with the build tag "verif".
 
+// The time in a file name is the UTC form of the given time in the fixed
+// layout (readers parse it as UTC; the layout itself belongs to C15).
+//@ func NameTimestamp
+//@   at_call time.(Time).UTC#0 assert of_the_given_time: arg0.wall == ts.wall && arg0.ext == ts.ext
+//@   after_call time.(Time).UTC#0 ghost loc_utcWall := ret0.wall
+//@   after_call time.(Time).UTC#0 ghost loc_utcExt := ret0.ext
+//@   at_call time.(Time).Format#0 assert formats_the_utc_time: arg0.wall == ghost_loc_utcWall && arg0.ext == ghost_loc_utcExt && sameSlice(arg1, timeFormat)
+
 // BuildName only formats its (value) receiver into a new string (C15 is about
 // the format itself and is not decided here).
 //@ func (ni NameInfo) BuildName
@@ -106,6 +114,7 @@ package snapshot
 //@   let qlen = varintLen(d.data[q:])
 //@   let qval = varintVal(d.data[q:])
 //@   at_call fmt.Errorf#0 assert rejects_only_a_truncated_entry: qval > uint64(len(d.data) - (q + qlen))
+//@   at_call snapshot.(*KV).Unmarshal#0 assert decodes_into_an_empty_entry: len(arg0.Key) == 0 && len(arg0.Value) == 0 && arg0.TimestampNano == 0 && arg0.Flags == 0
 //@   at_call snapshot.(*KV).Unmarshal#0 assert entry_payload: qtagv >> 3 == 2 && qtagv & 7 == 2 && varintOK(d.data[q:]) && sameSlice(arg1, d.data[q+qlen:q+qlen+int(qval)]) && d.cur == q+qlen+int(qval)
 
 // indexData against the schema: name = 1 and transform = 4 are length
@@ -439,6 +448,7 @@ package snapshot
 //@   at_call snapshot.getBytes#0 assert meta_is_a_nested_message: uint64(arg1) == ghost_loc_tag && uint64(arg2) == ghost_loc_wt && ghost_loc_tag == 2
 //@   at_call snapshot.getBytes#1 assert dbi_is_a_nested_message: uint64(arg1) == ghost_loc_tag && uint64(arg2) == ghost_loc_wt && ghost_loc_tag == 3
 //@   at_call snapshot.(*Meta).Unmarshal#0 assert meta_from_its_nested_bytes: ghost_decKind == 2 && arrayOf(arg1) == ghost_decArr && offsetOf(arg1) == ghost_decOff && uint64(len(arg1)) == ghost_decLen
+//@   at_call snapshot.(*Meta).Unmarshal#0 assert merges_into_the_snapshots_own_meta: pointsTo(arg0, s.Meta)
 //@   at_call snapshot.NewDBIFromData#0 assert dbi_from_its_nested_bytes: ghost_decKind == 2 && arrayOf(arg0) == ghost_decArr && offsetOf(arg0) == ghost_decOff && uint64(len(arg0)) == ghost_decLen
 //@   after_call snapshot.NewDBIFromData#0 ghost loc_dbi := refOf(ret0)
 //@   at_call append#0 assert appends_that_dbi: sameSlice(arg0, s.Databases) && len(arg1) == 1 && refOf(arg1[0]) == ghost_loc_dbi
